@@ -1,12 +1,13 @@
 from __future__ import annotations
 
 from collections.abc import AsyncIterable, MutableMapping, MutableSequence
+from functools import cmp_to_key
 from typing import Any, cast
 
 from typing_extensions import Self
 
 from streamflow.core.persistence import Database, DatabaseLoadingContext
-from streamflow.core.utils import get_tag
+from streamflow.core.utils import compare_tags, get_tag
 from streamflow.core.workflow import Token
 from streamflow.cwl.workflow import CWLWorkflow
 from streamflow.workflow.combinator import DotProductCombinator
@@ -15,7 +16,9 @@ from streamflow.workflow.token import IterationTerminationToken, ListToken
 
 def _flatten_token_list(outputs: MutableSequence[Token]) -> MutableSequence[Token]:
     flattened_list: list[Token] = []
-    for token in sorted(outputs, key=lambda t: int(t.tag.split(".")[-1])):
+    for token in sorted(
+        outputs, key=cmp_to_key(lambda x, y: compare_tags(x.tag, y.tag))
+    ):
         if isinstance(token, ListToken):
             flattened_list.extend(_flatten_token_list(token.value))
         else:
